@@ -196,3 +196,26 @@ CHECKS["C05"] = dict(
         technique="exhaustive enumeration of byte x position x entry point x prior-state grids, and explicit-state BFS to closure over call histories, on the implementation",
         ref="DESIGN.md 3/C05"),
 )
+
+CHECKS["C03"] = dict(
+    level="exploration",
+    jobs=lambda tier: [dict(name="c03", variant="o2", sources=["e_c03.c"] + RT)],
+    coverage=_cov("per method, with H = crypt(P,S): (a) P of the full significant window (511 / 72 bcrypt / 128 bigcrypt / 8 descrypt): at every byte "
+                  "position the perturbations {bit 0, bit 6, a different low-7-bit value, bit 7 where the method treats it as significant}; "
+                  "(b) every length 0..window: positions {0, L/2, L-1}, truncation by one, extension by one; (c) all strings of length <= 3 (quick) / "
+                  "<= 4 (thorough) over a 4-letter alphabet hash pairwise differently; (d) every single-character change of the salt (3 "
+                  "replacements) and a cost step, for 2 phrases. Oracle: crypt(P',H) != H; for (d) different canonical setting => different hash part. "
+                  "quick thins positions/lengths for sha256/512crypt, sunmd5, bcrypt to the boundary set plus every 8th; "
+                  "distinct_nontrivial = distinct results of perturbed phrases + small-scope phrases"),
+    assumptions=["8th-bit perturbations are not applied to DES-based methods, $2x$ and $2a$ (documented exemptions); their phrases are 7-bit",
+                 "equivalences inherent to the specified algorithms (HMAC key vs SHA1(key) for sha1crypt) are outside the quantifier"],
+    nonvacuous=lambda s, t: None if s.get("perturbations", 0) > 20000 and s.get("salt_changes", 0) > 400 else "too few perturbations",
+    deadline=dict(quick=300, thorough=1700),
+    manifest=dict(
+        text="Bounded exhaustive exploration of the property's own perturbation family: every byte position of the significant window, every "
+             "phrase length with truncation/extension, a complete small scope of short phrases, and every single-character salt change, all "
+             "verified against the real crypt_rn in the authentication direction (hash the other phrase with H as setting).",
+        note="gcc -O2 build; perturbation values are 3-4 per position, not all 255; one canonical setting per method for the phrase slabs.",
+        technique="exhaustive enumeration of position/length/salt-character perturbations on the implementation with an inequality oracle",
+        ref="DESIGN.md 3/C03"),
+)
